@@ -44,10 +44,10 @@ contract(LAN + "_Packet._timestamp",
 contract(LAN + "_Packet.encode",
          params={"device_id": "int[0,18446744073709551615]", "command": "bytes"},
          requires=["len(command) <= 65000"],
-         rtype="bytes",
          raises={},
-         ensures={"format": "result == v2_packet(device_id, result[12:20], command)",
-                  "total_length": "len(result) == v2_len(len(command))"})
+         exists={"ts": {"len": "8", "witness": "result[12:20]"}},
+         returns="v2_packet(device_id, ts, command)",
+         ensures={"total_length": "len(result) == v2_len(len(command))"})
 
 contract(LAN + "_Packet.decode",
          params={"data": "bytes"},
@@ -368,7 +368,7 @@ def is_data_packet_for(p, proto, frame_packet):
 contract(LANC + ".send",
          params={"self": "obj:" + LANC, "data": "bytes", "retries": "int[1,8]"},
          requires=["lan_inv(self)", "len(data) <= 60000"],
-         cancellation=True,
+         cancellation=True, rtype="list:bytes",
          modifies=["self._token", "self._key", "self._protocol", "self._protocol_version", "self._connection_expiration", "self._protocol.*"],
          let={"old_retries": "retries"},
          raises={LAN + "ProtocolError": {"post": {"recoverable": "lan_inv(self)"}},
@@ -387,7 +387,7 @@ contract(LANC + ".send",
                       "ghost_step": {"n": "pre(n) + 1"},
                       "step_hints": {"one_transmission_per_iteration": "len(events('tx')) == pre(len(events('tx'))) + 1"},
                       "variant": "retries"},
-                "2": {"havoc": {"responses": "list:bytes"}}})
+                "2": {"havoc": {"responses": "list:bytes"}, "invariant": ["len(responses) >= 1"]}})
 
 
 # ---- small LAN helpers by contract (keeps LAN.send's paths few) -------------------------------------------------------------
@@ -429,3 +429,35 @@ contract(LANC + "._connect",
                   "fresh_v3_session": "implies(isinstance(self._protocol, _LanProtocolV3), self._protocol._local_key is None and self._protocol._local_key_expiration is None and self._protocol._packet_id == 0)",
                   "lifetime": "implies(self._max_connection_lifetime is None, self._connection_expiration == old(self._connection_expiration))",
                   "not_expired_yet": "implies(self._max_connection_lifetime is not None and self._max_connection_lifetime.total_seconds() > 0, alive_spec(self))"})
+
+
+# ---- device level (C08/C09): network failures become "no response" -------------------------------------------------------------
+from contracts.device import DEV  # noqa: E402  (field declarations of Device)
+
+contract("msmart.base_device.Device._send_command#transport",
+         params={"self": "obj:msmart.base_device.Device", "command": "obj:msmart.frame.Frame"},
+         requires=["lan_inv(self._lan)", "0 <= command._device_type <= 255", "0 <= command._frame_type <= 255",
+                   "0 <= command._protocol_version <= 255"],
+         cancellation=True,
+         modifies=["self._lan.*", "self._lan._protocol.*"],
+         raises={"asyncio.CancelledError": {}},
+         ensures={"still_recoverable": "lan_inv(self._lan)"},
+         notes="C08/C09: ProtocolError and TimeoutError of the transport are turned into an empty response list")
+
+contract("msmart.base_device.Device.authenticate",
+         params={"self": "obj:msmart.base_device.Device", "token": "union:none|bytes", "key": "union:none|bytes[32]"},
+         requires=["lan_inv(self._lan)", "implies(token is not None, len(token) <= 65000)"],
+         cancellation=True,
+         modifies=["self._lan.*", "self._lan._protocol.*"],
+         raises={LAN + "AuthenticationError": {"post": {"stored_credentials_not_replaced": "self._lan._token == old(self._lan._token) and self._lan._key == old(self._lan._key)"}},
+                 "asyncio.CancelledError": {}})
+
+
+# ---- C03 / C05: truncation lemmas (proved outright; content tampering reduces to the hash assumptions) --------------------------
+contract(LAN + "_Packet.decode#truncated",
+         params={"device_id": "int[0,18446744073709551615]", "ts": "bytes[8]", "frame": "bytes", "k": "int[0,70000]"},
+         requires=["len(frame) <= 65000", "k < v2_len(len(frame))"],
+         let={"data": "v2_packet(device_id, ts, frame)[:k]"},
+         bind={"data": "data"},
+         raises={LAN + "ProtocolError": {}},
+         ensures={"a_truncated_packet_is_never_accepted": "False"})
